@@ -341,6 +341,14 @@ package server
 // C16 - RPKI: the ROA table holds what the caches announced and did not withdraw
 // =============================================================================================
 //@ props C16
+// the records of a cache live under its "address:port" (that is what AddRpki registers and what NewROA stamps on
+// them): removing or disabling a cache names it - and flushes its records - by that key
+//@ func (*BgpServer).DeleteRpki$1
+//@   claims at-call
+//@   at-call s.roaManager.DeleteServer( requires called(JoinHostPort)
+//@ func (*roaManager).Disable
+//@   claims at-call
+//@   at-call m.table.DeleteAll( requires arg0 == network
 // one lifetime timer per cache: a timer that is armed is stopped before another one takes its place - a leaked timer
 // fires while the session is up and synchronised and deletes every record of the cache
 //@ func (*roaManager).HandleROAEvent
